@@ -29,6 +29,10 @@ class Prop(common.PropertyCheck):
                    'chform': rng.choice(['name', 'pos', 'list', 'all', 'list_mixed']), 'over': rng.choice([None, None, 'T', 'M', 'W', 'W0', 'Wbig', 'Tsmall', 'TM']),
                    'dt': rng.choice(['I', 'I', 'F']), 'tinyneg': rng.random() < 0.4, 'nan': rng.random() < 0.3, 'seed': rng.randrange(1 << 30)}
         yield {'res': 1024, 'units': 'raw', 'scale': 'cubic', 'n': None, 'chform': 'name', 'over': None, 'seed': 1}
+        # unknown scale names that are fragments / other spellings of the valid ones
+        for i, bad in enumerate(['', 'l', 'g', 'logic', 'logicl', 'icle', 'lin', 'linea', 'lo', 'Linear', 'LOG', 'logicle ', ' log']):
+            yield {'res': 1024, 'units': ['raw', 'rfi'][i % 2], 'scale': 'cubic', 'badscale': bad, 'n': [None, 8][i % 2], 'chform': ['name', 'list', 'all'][i % 3], 'over': None,
+                   'seed': 40 + i}
         # samples without events (everything gated out): range and resolution still define the bins
         for i in range(self.budget(9, 60)):
             yield {'res': rng.choice([256, 1024, 4096]), 'units': ['raw', 'rfi', 'mef'][i % 3], 'scale': ['logicle', 'linear', 'log'][(i // 3) % 3], 'n': [None, 17, 'res'][i % 3],
@@ -109,6 +113,8 @@ class Prop(common.PropertyCheck):
             sc = scale
         if case.get('badlist'):
             sc = list(case['badlist'])
+        if 'badscale' in case:
+            sc = case['badscale'] if chf != 'list' else ['linear', case['badscale']]
         nb_plain = None
         if case.get('nb_reuse'):
             nb = [None, 5]
@@ -118,6 +124,10 @@ class Prop(common.PropertyCheck):
             except Exception:
                 pass
         out = {'cols': cols, 'scalar': scalar, 'ranges': [[float(x) for x in d.range(c)] for c in cols], 'resol': [int(d.resolution(c)) for c in cols]}
+        if case['units'] == 'raw':
+            # what the file declares ($PnR), independently of the loaded object
+            decl = [case['res'], case['res'], 1024]
+            out['declared'] = [[0.0, float(decl[c] - 1), int(decl[c])] for c in cols]
         try:
             e = d.hist_bins(ch, nb, sc, **kw)
         except Exception as ex:
@@ -200,6 +210,10 @@ class Prop(common.PropertyCheck):
             return None if impl.get('err') == 'ValueError' else 'unknown scale not refused: %s' % impl.get('err', 'accepted')
         if 'err' in impl:
             return 'hist_bins raised %s for %s' % (impl['err'], case)
+        for i, dcl in enumerate(impl.get('declared') or []):
+            if impl['ranges'][i] != dcl[:2] or impl['resol'][i] != dcl[2]:
+                return 'channel %d of a raw sample has range %s and resolution %d, the file declares $PnR = %d (range [0, %d])' % (
+                    impl['cols'][i], impl['ranges'][i], impl['resol'][i], dcl[2], dcl[2] - 1)
         for i, v in (impl.get('tmw_doc') or {}).items():
             for nm, w, g in zip('TMW', v[:3], v[3:]):
                 if abs(g - w) > 2e-6 * max(1.0, abs(w)):
